@@ -23,7 +23,7 @@ Model ops:
   `adjust <q> T`                         → `<T> <q>` | `assert`
   `inttype <v> <decimal 0|1> <sfx|->`    → `ty <basic>` | `badsuffix` | `notype`
   `enumbase <min> <max>`                 → basic | `none`
-  `typeof E`                             → `<T> q=<q> lv=<0|1> w=<w> nc=<0|1> ok=<0|1>` | `error`
+  `typeof E`                             → `<T> q=<q> lv=<0|1> w=<w> nc=<0|1> dk=<0|1> ok=<0|1>` | `error`
         (`ok` = every node of E satisfies the Spec predicate of its operator, given the model's
         operands for the sub-expressions)
 Spec ops (prefix `S`):
@@ -397,7 +397,7 @@ def step (st : St) (line : String) : St × String :=
     | some (e, []) =>
       (st, match typeChk st.tg sc e with
            | some (o, ok) =>
-             s!"{showTy o.ty} q={o.qual.toNat} lv={b01 o.lvalue} w={showW o.width} nc={b01 o.nullconst} ok={b01 ok}"
+             s!"{showTy o.ty} q={o.qual.toNat} lv={b01 o.lvalue} w={showW o.width} nc={b01 o.nullconst} dk={b01 o.decayedFrom.isSome} ok={b01 ok}"
            | none => "error")
     | _ => (st, "bad-op")
   | ["Spromote", a, w] =>
